@@ -247,7 +247,17 @@ func (g *mdGen) inline(kind string, n int) {
 			g.w(g.pick("", "[x]", "(y)"))
 			g.inlineLink(kind)
 		case 9:
-			g.w(g.word())
+			if g.noTicks || g.inHTML || kind != "link" {
+				g.w(g.word())
+				break
+			}
+			// links cannot contain links: the inner one is a link, the outer
+			// brackets and their "destination" are text
+			g.w("[outer ")
+			g.inlineLink(kind)
+			g.w(" more](")
+			g.dest("outer-of-nested-link", false)
+			g.w(")")
 		case 10:
 			// link text containing a link-looking code span
 			g.w("[see `")
